@@ -248,10 +248,10 @@ theorem C13_confined (P : Program) (dir : Path) (key data : Bytes) (o : Opts) (r
   · exact localize_rejects_nul key h
   · exact localize_rejects_dotdot key h
 
-/-- **F5.** The key `"."` is accepted by `filepath.Localize` and denotes the backend directory
+/-- **F8.** The key `"."` is accepted by `filepath.Localize` and denotes the backend directory
 itself: `Upload(".")` creates (and removes again) its temporary file, holding the data, in the
 PARENT of the backend directory. The hypothesis `comps ≠ []` of (3) cannot be dropped. -/
-theorem C13_F5_dot_key_escapes :
+theorem C13_dot_key_escapes :
     localize dot = some [] ∧
     Sys.creat [tmpName demoRoot rnd1] 1 ∈ (uploadTrace program [demoRoot] dot dat1 plain rnd1 demoWorld).1 ∧
     ¬ Within [demoRoot] [tmpName demoRoot rnd1] := by
